@@ -326,6 +326,9 @@ func cmdRun(args []string) int {
 					fmt.Printf("    unsupported x%d: %s\n", n, k)
 				}
 			}
+			for _, rr := range st.Races {
+				fmt.Printf("    race candidate (%s) on %s in %s / %s\n", rr.Kind, shortSite(rr.Site), shortSite(rr.A), shortSite(rr.B))
+			}
 			for i, n := range st.Notes {
 				if i < 6 {
 					fmt.Printf("    note: %s\n", n)
@@ -380,6 +383,9 @@ func cmdRun(args []string) int {
 		var items []item
 		for i, v := range viol {
 			base := fmt.Sprintf("v%03d-%s", i, v.Harness)
+			if v.Kind == "race" {
+				base = "race-" + base
+			}
 			in := replayIn{Harness: v.Harness, Pkg: v.Pkg, Vars: v.Vars, Params: cfgs[v.Pkg+"."+v.Harness].Opts, Expect: v.Kind + ":" + v.Label,
 				Label: v.Label, Kind: v.Kind, Site: v.Site, Stack: v.Stack, Property: *prop, TimeoutMs: 8000}
 			raw, _ := json.MarshalIndent(in, "", " ")
@@ -406,6 +412,16 @@ func cmdRun(args []string) int {
 				}
 			}
 			for _, it := range items {
+				if it.v != nil && it.v.Kind == "race" {
+					out, _ := runGoTestReplayRace(strings.TrimPrefix(it.pkg, modulePath+"/"), workDir, inDir, it.base)
+					validated++
+					if strings.Contains(out, "DATA RACE") {
+						confirmed[it.v] = "confirmed: go test -race reports a DATA RACE on the native replay"
+					} else {
+						confirmed[it.v] = "not-reproduced (no race report from go test -race)"
+					}
+					continue
+				}
 				var ro replayOut
 				raw, err := os.ReadFile(filepath.Join(inDir, it.base+".out.json"))
 				if err != nil || json.Unmarshal(raw, &ro) != nil || !ro.Ran {
@@ -429,6 +445,13 @@ func cmdRun(args []string) int {
 						}
 					}
 					validated++
+					if !ok && ro.Hang {
+						for vv, cs := range confirmed {
+							if vv.Harness == it.w.Harness && (vv.Kind == "lock" || vv.Kind == "deadlock") && strings.HasPrefix(cs, "confirmed") {
+								ok = true // the native hang is the reported defect, not a modelling mismatch
+							}
+						}
+					}
 					if !ok {
 						mismatches++
 						fmt.Printf("ENGINE-MISMATCH witness %s/%s did not replay natively: failed=%v panic=%q hang=%v assume=%v reached=%v\n",
@@ -445,6 +468,8 @@ func cmdRun(args []string) int {
 	// classify violations
 	exit := 0
 	nViol, nKnown := 0, 0
+	unconfirmed := 0
+	_ = unconfirmed
 	var knownLines []string
 	for i, v := range viol {
 		st := confirmed[v]
@@ -452,6 +477,9 @@ func cmdRun(args []string) int {
 			st = "confirmed(no-replay)"
 		}
 		path := filepath.Join(replayDir, fmt.Sprintf("v%03d-%s.json", i, v.Harness))
+		if v.Kind == "race" {
+			path = filepath.Join(replayDir, fmt.Sprintf("race-v%03d-%s.json", i, v.Harness))
+		}
 		if strings.HasPrefix(st, "confirmed") {
 			if k := matchKnown(known, *prop, v); k != nil {
 				line := fmt.Sprintf("KNOWN-FINDING: property=%s %s [%s: %s @ %s]", *prop, k.What, v.Harness, v.Label, shortSite(v.Site))
@@ -466,6 +494,9 @@ func cmdRun(args []string) int {
 				nViol++
 				exit = 1
 			}
+		} else if cfgs[v.Pkg+"."+v.Harness].Opts["schedule"] == "1" && v.Kind == "assert" {
+			fmt.Printf("UNCONFIRMED-SCHEDULE %s/%q: found for some interleaving by the engine, not reproduced by the native run (%s); see %s\n", v.Harness, v.Label, st, path)
+			unconfirmed++
 		} else {
 			fmt.Printf("ENGINE-MISMATCH counterexample for %s/%q did not reproduce natively (%s); see %s\n", v.Harness, v.Label, st, path)
 			mismatches++
@@ -549,6 +580,15 @@ func runGoTestReplay(rel, workDir, inDir string) (string, error) {
 		"-overlay", filepath.Join(workDir, "overlay.json"), "./"+rel)
 	cmd.Dir = repoRoot
 	cmd.Env = append(goEnv(), "VERIF_REPLAY_DIR="+inDir)
+	out, err := cmd.CombinedOutput()
+	return string(out), err
+}
+
+func runGoTestReplayRace(rel, workDir, inDir, base string) (string, error) {
+	cmd := exec.Command("go", "test", "-race", "-tags", "verif", "-vet=off", "-count=1", "-run", "^TestZZReplay$", "-timeout", "10m",
+		"-overlay", filepath.Join(workDir, "overlay.json"), "./"+rel)
+	cmd.Dir = repoRoot
+	cmd.Env = append(goEnv(), "VERIF_REPLAY_DIR="+inDir, "VERIF_REPLAY_ONLY="+base, "CGO_ENABLED=1")
 	out, err := cmd.CombinedOutput()
 	return string(out), err
 }
